@@ -84,13 +84,17 @@ class ModelBuilder:
                 obj = None
             except AnalysisError:
                 obj = None
+        built = obj is not None
         if obj is None:
             obj = AObj(cls)
         elif verify and not self.pm.cls(cls).unit.env:
             self._verify(cls, obj, fields, f"{cls}({', '.join(_show(a) for a in args)})")
         for k, v in fields.items():
             self._pin(obj, k, v)
-        obj._f.pop("_complete", None)
+        if not built:
+            obj._f.pop("_complete", None)     # a stand-in: a field it lacks is unknown, not absent
+        # (an object whose constructor was evaluated holds every field the constructor sets: reading another one is an
+        # AttributeError, as in Python - `getattr(model, "_memo", None)` and `hasattr` answer exactly)
         return obj
 
     def _pin(self, obj: AObj, k: str, v: Any) -> None:
